@@ -3496,6 +3496,10 @@ func (s *Store) ServiceDump(ws memdb.WatchSet, kind structs.ServiceKind, useKind
 func serviceDumpAllTxn(tx ReadTxn, ws memdb.WatchSet, entMeta *acl.EnterpriseMeta, peerName string) (uint64, structs.CheckServiceNodes, error) {
 	// Get the table index
 	idx := catalogMaxIndexWatch(tx, ws, entMeta, "", true)
+	if peerName != "" {
+		// Imported services are indexed and watched under the peer's own index entries.
+		idx = catalogMaxIndexWatch(tx, ws, entMeta, peerName, true)
+	}
 
 	if entMeta == nil {
 		entMeta = structs.DefaultEnterpriseMetaInDefaultPartition()
